@@ -12,7 +12,7 @@ LEVEL = "model_checking"
 ENGINE = "E-SCEN"
 RULE = (
     "every multiset of n reporting units (n in 3..N) over (baseline+1 = w in {10,20,50}) x (counted = {5,12,30,80} * w/10), with four outstanding "
-    "units (baseline+1 in {13,27,50,7}, partial counts 0 / small / huge / 1, so products are fractional), unit types county and precinct, wide and default turnout-factor limits, and (n = 3) the estimand pair [dem, turnout] with different swings in one run; one real get_estimates each, no "
+    "units (baseline+1 in {13,27,50,7}, partial counts 0 / small / huge / 1, so products are fractional), unit types county and precinct, wide and default turnout-factor limits, and (n = 3) the estimand pair [dem, turnout] with different swings in one run; one real get_estimates each (input files sorted by unit id, baseline file reversed, or both files shuffled, in rotation), no "
     "features, no fixed effects. Oracle in exact rationals: m = w-weighted median of (counted-w)/w over the modelled reporting units; every outstanding "
     "unit's pred = max(round(w_i(1+m)), partial_i). Scenarios whose weighted median is not unique are counted and skipped. non-trivial = weighted and "
     "unweighted median differ, or the floor binds, or m<0"
@@ -78,7 +78,7 @@ def evaluate(case):
             V.append({"sig": f"C05:{kind}", "msg": msg})
 
     ut = case["unit_type"]
-    for combo in case["combos"]:
+    for ci, combo in enumerate(case["combos"]):
         units = []
         ests = case.get("estimands", ["turnout"])
         for i, (w, k) in enumerate(combo):
@@ -99,6 +99,10 @@ def evaluate(case):
         cfg = E.make_cfg(estimands=list(ests), alphas=[0.5], unit_type=ut, model_parameters=mp, aggregates=["postal_code", "unit"])
         if case.get("pointer"):
             cfg["baseline_pointer"] = {"dem": "dem_pres", "gop": "gop", "turnout": "turnout"}
+        # the order of the rows of the two input files carries no information: sorted / baseline reversed / both shuffled
+        cfg["row_order"] = [None, {"baseline": "reversed"}, {"baseline": "scattered", "feed": "reversed"}][ci % 3]
+        if cfg["row_order"]:
+            cov["runs_with_unsorted_input_rows"] += 1
         res = E.run_estimates(units, cfg)
         runs += 1
         cats = R.categorize(units, cfg)
@@ -154,4 +158,4 @@ def evaluate(case):
     return {"violations": V, "cov": dict(cov), "outcome": sha(outs)[:16], "nontrivial": nontrivial, "transitions": runs}
 
 
-REQUIRED_COUNTERS = {"predictions_checked": 1000, "weighted_differs_from_unweighted": 50, "floor_binds": 100, "negative_swing": 100, "reporting_unit_excluded_from_fit": 20, "two_estimand_medians": 200, "baseline_pointer_runs": 50}
+REQUIRED_COUNTERS = {"predictions_checked": 1000, "weighted_differs_from_unweighted": 50, "floor_binds": 100, "negative_swing": 100, "reporting_unit_excluded_from_fit": 20, "two_estimand_medians": 200, "baseline_pointer_runs": 50, "runs_with_unsorted_input_rows": 500}
